@@ -34,6 +34,13 @@ def make_X(rng, shape_kind, n_components):
         # a mutual pair far from everything else: with a disconnection distance it is a 2-vertex component
         X = np.r_[rng.normal(size=(24, 4)), rng.normal(size=(1, 4)) * 0.1 + 500.0]
         X = np.r_[X, X[-1:] + 0.05]
+    elif shape_kind == "dup-isolated":
+        # repeated rows first (so distinct-row numbering differs from input numbering) and samples far from everything: with
+        # unique=True and a disconnection distance the isolated samples are in the middle of the distinct-row order
+        X = rng.normal(size=(26, 4))
+        X[:6] = X[6:12]
+        X[15] += 700.0
+        X[20] -= 900.0
     elif shape_kind == "two-clusters":
         X = np.r_[rng.normal(size=(15, 4)), rng.normal(size=(15, 4)) + 30.0]
     else:
@@ -120,7 +127,8 @@ def run(ctx):
                                                                      ("regular", "array-strided"), ("regular", "array-float64"))]
         combos = [combos[j] for j in sorted(set(pick.tolist()) | set(must))]
     # always present: identical samples in a non-canonical CSR matrix with unique=True; densMAP with isolated samples
-    combos += [("duplicates", "random", "euclidean", True, True, 2, 11, 1.0), ("far-pair", "random", "euclidean", False, False, 2, 11, 1.0)]
+    combos += [("duplicates", "random", "euclidean", True, True, 2, 11, 1.0), ("far-pair", "random", "euclidean", False, False, 2, 11, 1.0),
+               ("dup-isolated", "random", "euclidean", False, True, 2, 11, 1.0), ("dup-isolated", "spectral", "euclidean", True, True, 2, 0, 1.0)]
     seen = set()
     combo_no = 0
     drv = Driver()
@@ -229,7 +237,7 @@ def run(ctx):
                   n_epochs=ne, learning_rate=lr, random_state=4)
         if ne is None and n > 20:
             kw["n_epochs"] = 30     # the default (500) adds nothing but time
-        if sh == "far-pair":
+        if sh in ("far-pair", "dup-isolated"):
             kw["disconnection_distance"] = 100.0
         # densMAP is one more valid configuration: every fifth combination, and every one with isolated samples and a string init
         combo_no += 1
